@@ -183,7 +183,7 @@ func c11Run(c *Ctx) {
 		ly := gen.BuildTIFF(g, rec, gen.LayoutOpts{Foreign: 3})
 		tiff := ly.Encode(big).Bytes
 		x := c.L("gen:x")
-		h := gen.DrawHEIFOpts(g, tiff, g.Bool(), gen.HEIFOpts{ExtraIloc: x.Intn(3), Brands: x.Intn(13), InfeVariants: x.Intn(4), InfeVersions: infeVersions(c.L("gen:y")), Iref: c.L("gen:y").Bool()})
+		h := gen.DrawHEIFOpts(g, tiff, g.Bool(), gen.HEIFOpts{ExtraIloc: x.Intn(3), Brands: x.Intn(13), InfeVariants: x.Intn(4), InfeVersions: infeVersions(c.L("gen:y")), Iref: c.L("gen:y").Bool(), ItemFirst: c.L("gen:y").Chance(1, 3), Mdat64: c.L("gen:y").Chance(1, 3), IinfFirst: c.L("gen:y").Bool()})
 		data, top = h.Bytes, h.Top
 		bo, first := tiffHdr(tiff)
 		mdatEnd := 0
